@@ -113,7 +113,8 @@ Hypothesis fl_near : forall x, - g <= 2 * (fl x - x) <= g.
 
 Lemma asweep_key a b p q : asweep_ent g a b p = Some q -> fst q = fst p.
 Proof.
-  unfold asweep_ent. destruct (ar (snd p)) as [|L U]; [intros H; inversion H; auto|].
+  unfold asweep_ent. destruct (wild (snd p)); [intros H; inversion H; auto|].
+  destruct (ar (snd p)) as [|L U]; [intros H; inversion H; auto|].
   destruct ((0 <=? L) && (U <=? a)); [discriminate|].
   destruct (b + g <? L); intros H; inversion H; auto.
 Qed.
@@ -154,17 +155,24 @@ Qed.
 (* ---------- concretisation ---------- *)
 Definition G (abs : amap) (conc : smap) : Prop :=
   ksorted abs /\ ksorted conc /\
-  (forall k v d, m_get conc k = Some (v, d) ->
-                 exists ae, m_get abs k = Some ae /\ av ae = v /\ in_range_b d (ar ae) = true) /\
+  (forall k v d, m_get conc k = Some (v, d) -> exists ae, m_get abs k = Some ae /\ fits ae v d = true) /\
   (forall k ae, m_get abs k = Some ae -> ap ae = Sure -> exists e, m_get conc k = Some e).
 
 Lemma G_nil : G [] [].
 Proof. split; [constructor|split; [constructor|split]]; intros; discriminate. Qed.
 
-Lemma G_put abs conc k ae v d :
-  G abs conc -> av ae = v -> in_range_b d (ar ae) = true -> G (m_put k ae abs) (m_put k (v, d) conc).
+Lemma fits_intro ae v d : av ae = v -> in_range_b d (ar ae) = true -> fits ae v d = true.
+Proof. intros Hv Hr. unfold fits. rewrite Hv, Z.eqb_refl, Hr. apply orb_true_r. Qed.
+
+Lemma fits_nonwild ae v d : wild ae = false -> fits ae v d = true -> av ae = v /\ in_range_b d (ar ae) = true.
 Proof.
-  intros (H1 & H2 & H3 & H4) Hv Hr. split; [now apply ksorted_put|split; [now apply ksorted_put|split]].
+  unfold fits. intros Hw H. rewrite Hw in H. simpl in H. apply andb_true_iff in H as [H1 H2].
+  apply Z.eqb_eq in H1. auto.
+Qed.
+
+Lemma G_put abs conc k ae v d : G abs conc -> fits ae v d = true -> G (m_put k ae abs) (m_put k (v, d) conc).
+Proof.
+  intros (H1 & H2 & H3 & H4) Hf. split; [now apply ksorted_put|split; [now apply ksorted_put|split]].
   - intros k' v' d'. rewrite !m_get_put. destruct (k =? k'); [|apply H3].
     intros H; inversion H; subst. exists ae; auto.
   - intros k' ae'. rewrite !m_get_put. destruct (k =? k'); [eauto|apply H4].
@@ -179,11 +187,22 @@ Qed.
 
 (* update of the abstract entry of a key that is concretely present *)
 Lemma G_refine abs conc k ae v d :
-  G abs conc -> m_get conc k = Some (v, d) -> av ae = v -> in_range_b d (ar ae) = true ->
+  G abs conc -> m_get conc k = Some (v, d) -> fits ae v d = true -> G (m_put k ae abs) conc.
+Proof.
+  intros HG Hc Hf. pose proof HG as (_ & H2 & _).
+  rewrite <- (m_put_same conc k (v, d) H2 Hc). now apply G_put.
+Qed.
+
+(* replacement of the abstract entry of a key by one that is not Sure, concrete state unchanged *)
+Lemma G_weaken abs conc k ae :
+  G abs conc -> ap ae <> Sure -> (forall v d, m_get conc k = Some (v, d) -> fits ae v d = true) ->
   G (m_put k ae abs) conc.
 Proof.
-  intros HG Hc Hv Hr. pose proof HG as (_ & H2 & _).
-  rewrite <- (m_put_same conc k (v, d) H2 Hc). now apply G_put.
+  intros (H1 & H2 & H3 & H4) Hns Hf. split; [now apply ksorted_put|split; [exact H2|split]].
+  - intros k' v' d' Hc. rewrite m_get_put. destruct (Z.eqb_spec k k') as [He|He]; [|now apply H3].
+    subst k'. exists ae. split; auto.
+  - intros k' ae'. rewrite m_get_put. destruct (Z.eqb_spec k k') as [He|He]; [|apply H4].
+    intros H Hp; inversion H; subst. contradiction.
 Qed.
 
 Lemma in_range_exact d : in_range_b d (exact d) = true.
@@ -210,8 +229,10 @@ Qed.
 Lemma miss_ok_expired abs conc k v d t b : G abs conc -> m_get conc k = Some (v, d) -> expired t d = true ->
   t <= b -> miss_ok abs k b = true.
 Proof.
-  intros (_ & _ & H3 & _) Hc Hex Hb. destruct (H3 k v d Hc) as (ae & Ha & Hv & Hr).
-  unfold miss_ok. rewrite Ha. destruct (ap ae); auto.
+  intros (_ & _ & H3 & _) Hc Hex Hb. destruct (H3 k v d Hc) as (ae & Ha & Hf).
+  unfold miss_ok. rewrite Ha. destruct (ap ae) eqn:Ep; auto.
+  assert (Hw : wild ae = false) by (unfold wild; now rewrite Ep).
+  destruct (fits_nonwild ae v d Hw Hf) as [_ Hr].
   unfold expired in Hex. apply andb_true_iff in Hex as [E1 E2]. apply Z.ltb_lt in E1, E2.
   unfold may_expired. destruct (ar ae) as [|L U]; simpl in Hr.
   - apply Z.eqb_eq in Hr. lia.
@@ -233,6 +254,13 @@ Proof.
   apply andb_false_iff in Hex as [E|E]; apply Z.ltb_ge in E; [left|right]; apply Z.leb_le; lia.
 Qed.
 
+Lemma wild_or_live ae v d t a : fits ae v d = true -> expired t d = false -> a <= t ->
+  (wild ae || may_live (ar ae) a)%bool = true.
+Proof.
+  intros Hf Hex Ha. destruct (wild ae) eqn:Hw; [reflexivity|]. simpl.
+  destruct (fits_nonwild ae v d Hw Hf) as [_ Hr]. eapply may_live_ok; eauto.
+Qed.
+
 Lemma G_sweep abs conc a b t : G abs conc -> a <= t <= b ->
   G (filter_map (asweep_ent g a b) abs) (filter (fun p => negb (swept fl t (snd (snd p)))) conc).
 Proof.
@@ -241,9 +269,11 @@ Proof.
   - intros k v d. rewrite m_get_filter by exact H2.
     destruct (m_get conc k) as [[v0 d0]|] eqn:Ec; [|discriminate]. simpl.
     destruct (swept fl t d0) eqn:Es; simpl; [discriminate|]. intros H; inversion H; subst v0 d0.
-    destruct (H3 k v d Ec) as (ae & Ha & Hv & Hr). rewrite m_get_sweep by exact H1. rewrite Ha.
-    unfold asweep_ent; simpl. destruct (ar ae) as [|L U] eqn:Er; simpl.
-    + exists ae. rewrite Er. auto.
+    destruct (H3 k v d Ec) as (ae & Ha & Hf). rewrite m_get_sweep by exact H1. rewrite Ha.
+    unfold asweep_ent; simpl. destruct (wild ae) eqn:Hw; simpl; [exists ae; auto|].
+    destruct (fits_nonwild ae v d Hw Hf) as [Hv Hr].
+    destruct (ar ae) as [|L U] eqn:Er; simpl.
+    + exists ae. auto.
     + destruct ((0 <=? L) && (U <=? a)) eqn:Erm.
       * exfalso. apply andb_true_iff in Erm as [R1 R2]. apply Z.leb_le in R1, R2.
         simpl in Hr. apply andb_true_iff in Hr as [Hr Q2]. apply andb_true_iff in Hr as [Q0 Q1].
@@ -253,19 +283,23 @@ Proof.
         assert (F2 : fl d <= fl t) by (apply fl_mono; lia).
         apply andb_false_iff in Es as [Es|Es]; [apply Z.leb_gt in Es|apply Z.leb_gt in Es]; lia.
       * destruct (b + g <? L); simpl.
-        -- exists ae. rewrite Er. auto.
-        -- eexists. split; [reflexivity|]. simpl. split; [exact Hv|exact Hr].
+        -- exists ae. auto.
+        -- eexists. split; [reflexivity|]. apply fits_intro; simpl; auto.
   - intros k ae'. rewrite m_get_sweep by exact H1.
     destruct (m_get abs k) as [ae|] eqn:Ea; [|discriminate].
-    unfold asweep_ent; simpl. destruct (ar ae) as [|L U] eqn:Er; simpl.
+    unfold asweep_ent; simpl. destruct (wild ae) eqn:Hw; simpl.
+    { intros H Hp; inversion H; subst ae'. unfold wild in Hw. rewrite Hp in Hw. discriminate. }
+    destruct (ar ae) as [|L U] eqn:Er; simpl.
     + intros H Hp; inversion H; subst ae'. destruct (H4 k ae Ea Hp) as ([v d] & Hc).
-      destruct (H3 k v d Hc) as (ae2 & Ha2 & _ & Hr). rewrite Ea in Ha2. inversion Ha2; subst ae2.
+      destruct (H3 k v d Hc) as (ae2 & Ha2 & Hf). rewrite Ea in Ha2. inversion Ha2; subst ae2.
+      destruct (fits_nonwild ae v d Hw Hf) as [_ Hr].
       rewrite Er in Hr. simpl in Hr. apply Z.eqb_eq in Hr. subst d.
       exists (v, 0). rewrite m_get_filter by exact H2. rewrite Hc. reflexivity.
     + destruct ((0 <=? L) && (U <=? a)); [discriminate|].
       destruct (Z.ltb_spec (b + g) L) as [Hk|Hk]; simpl.
       * intros H Hp; inversion H; subst ae'. destruct (H4 k ae Ea Hp) as ([v d] & Hc).
-        destruct (H3 k v d Hc) as (ae2 & Ha2 & _ & Hr). rewrite Ea in Ha2. inversion Ha2; subst ae2.
+        destruct (H3 k v d Hc) as (ae2 & Ha2 & Hf). rewrite Ea in Ha2. inversion Ha2; subst ae2.
+        destruct (fits_nonwild ae v d Hw Hf) as [_ Hr].
         rewrite Er in Hr. simpl in Hr. apply andb_true_iff in Hr as [Hr Q2]. apply andb_true_iff in Hr as [Q0 Q1].
         apply Z.leb_le in Q1, Q2.
         exists (v, d). rewrite m_get_filter by exact H2. rewrite Hc. simpl.
@@ -282,7 +316,7 @@ Lemma G_export_F conc : ksorted conc -> G (map (fun p => (fst p, exactify (snd p
 Proof.
   intros Hs. split; [now apply ksorted_map_val|split; [exact Hs|split]].
   - intros k v d Hc. rewrite m_get_map_val, Hc. simpl.
-    eexists; split; [reflexivity|]. simpl. split; [reflexivity|apply in_range_exact].
+    eexists; split; [reflexivity|]. apply fits_intro; [reflexivity|apply in_range_exact].
   - intros k ae. rewrite m_get_map_val. destruct (m_get conc k) as [e|]; [eauto|discriminate].
 Qed.
 
@@ -294,33 +328,73 @@ Lemma export_ok_complete abs conc : G abs conc -> export_ok abs conc = true.
 Proof.
   intros (H1 & H2 & H3 & H4). unfold export_ok. rewrite (ksorted_b_true conc H2). simpl.
   apply andb_true_iff. split; apply forallb_forall.
-  - intros [k [v d]] Hin. simpl. destruct (H3 k v d (In_m_get _ _ _ H2 Hin)) as (ae & Ha & Hv & Hr).
-    rewrite Ha, Hv, Hr, Z.eqb_refl. reflexivity.
+  - intros [k [v d]] Hin. simpl. destruct (H3 k v d (In_m_get _ _ _ H2 Hin)) as (ae & Ha & Hf).
+    now rewrite Ha.
   - intros [k ae] Hin. simpl. destruct (ap ae) eqn:Ep; auto.
     destruct (H4 k ae (In_m_get _ _ _ H1 Hin) Ep) as (e & He). now rewrite He.
 Qed.
 
-Lemma G_restore data a b t : NoDup (map fst data) -> a <= t <= b ->
-  G (arestore a b data) (s_load [] data t).
+(* Load: one clock reading per entry, each somewhere in [a,b] *)
+Definition load_entry (t : Z) (m : smap) (ke : Z * entry) : smap :=
+  if expired t (snd (snd ke)) then m else m_put (fst ke) (snd ke) m.
+
+Lemma G_load_entry abs conc a b t k v d : G abs conc -> a <= t <= b ->
+  G (aload a b [(k, (v, d))] abs) (load_entry t conc (k, (v, d))).
 Proof.
-  intros Hnd Ht. unfold arestore.
-  set (P := fun ke : Z * entry => (0 <? snd (snd ke)) && (snd (snd ke) <? a)).
-  set (F := fun ke : Z * entry => {| av := fst (snd ke); ar := exact (snd (snd ke));
-                                     ap := if (snd (snd ke) <=? 0) || (b <=? snd (snd ke)) then Sure else Maybe |}).
-  change (fold_left _ data []) with (fold_left (fun m ke => if P ke then m else m_put (fst ke) (F ke) m) data []).
-  split; [apply ksorted_fold_put; constructor|split; [apply ksorted_s_load; constructor|split]].
-  - intros k v d Hc. apply get_s_load in Hc as [Hin Hex]; auto. simpl in Hex.
-    exists (F (k, (v, d))). split; [|split; [reflexivity|apply in_range_exact]].
-    apply (fold_put_get_gen P F data [] Hnd (fun _ _ => eq_refl)). right. exists (v, d). split; [auto|split; [|auto]].
-    unfold P; simpl. unfold expired in Hex.
-    apply andb_false_iff in Hex as [E|E]; apply andb_false_iff; [left; exact E|right].
-    apply Z.ltb_ge in E. apply Z.ltb_ge. lia.
-  - intros k ae Ha Hp. apply (fold_put_get_gen P F data [] Hnd (fun _ _ => eq_refl)) in Ha.
-    destruct Ha as [Ha|([v d] & Hin & HP & ->)]; [discriminate|].
-    exists (v, d). apply get_s_load; auto. split; auto. simpl.
-    unfold F in Hp; simpl in Hp. unfold expired.
-    destruct ((d <=? 0) || (b <=? d)) eqn:E; [|discriminate].
-    apply orb_true_iff in E as [E|E]; apply Z.leb_le in E; apply andb_false_iff; [left|right]; apply Z.ltb_ge; lia.
+  intros HG Ht. unfold aload, load_entry. cbn [fold_left fst snd].
+  destruct ((0 <? d) && (d <? a)) eqn:E1.
+  - apply andb_true_iff in E1 as [A B]. apply Z.ltb_lt in A, B.
+    assert (Ex : expired t d = true) by (unfold expired; apply andb_true_iff; split; apply Z.ltb_lt; lia).
+    rewrite Ex. exact HG.
+  - destruct ((d <=? 0) || (b <=? d)) eqn:E2.
+    + assert (Ex : expired t d = false).
+      { unfold expired. apply orb_true_iff in E2 as [A|A]; apply Z.leb_le in A; apply andb_false_iff;
+          [left|right]; apply Z.ltb_ge; lia. }
+      rewrite Ex. apply G_put; auto. apply fits_intro; [reflexivity|apply in_range_exact].
+    + destruct (expired t d) eqn:Ex.
+      * (* not loaded *)
+        apply G_weaken; auto.
+        -- simpl. destruct (m_get abs k); discriminate.
+        -- intros v' d' Hc. pose proof HG as (_ & _ & H3 & _). destruct (H3 k v' d' Hc) as (ae & Ha & _).
+           unfold fits, wild. simpl. rewrite Ha. reflexivity.
+      * (* loaded *)
+        pose proof HG as (H1 & H2 & H3 & H4).
+        split; [now apply ksorted_put|split; [now apply ksorted_put|split]].
+        -- intros k' v' d'. rewrite !m_get_put. destruct (k =? k'); [|apply H3].
+           intros H; inversion H; subst. eexists; split; [reflexivity|].
+           unfold fits. simpl. rewrite Z.eqb_refl, in_range_exact. apply orb_true_r.
+        -- intros k' ae'. rewrite !m_get_put. destruct (k =? k'); [eauto|apply H4].
+Qed.
+
+Lemma aload_cons a b ke data abs : aload a b (ke :: data) abs = aload a b data (aload a b [ke] abs).
+Proof. reflexivity. Qed.
+
+(* every entry of the data is judged at its own instant ts_i in [a,b] *)
+Fixpoint load_multi (ts : list Z) (m : smap) (data : list (Z * entry)) : smap :=
+  match data, ts with
+  | ke :: data', t :: ts' => load_multi ts' (load_entry t m ke) data'
+  | _, _ => m
+  end.
+
+Lemma G_load_multi a b : forall data ts abs conc, G abs conc -> length ts = length data ->
+  Forall (fun t => a <= t <= b) ts -> G (aload a b data abs) (load_multi ts conc data).
+Proof.
+  induction data as [|[k [v d]] data IH]; intros ts abs conc HG Hl Hts; [destruct ts; exact HG|].
+  destruct ts as [|t ts]; [discriminate|]. inversion Hts as [|? ? Ht Hts']; subst.
+  rewrite aload_cons. cbn [load_multi]. apply IH; auto. now apply G_load_entry.
+Qed.
+
+Lemma load_multi_repeat t : forall data m, load_multi (repeat t (length data)) m data = s_load m data t.
+Proof.
+  unfold s_load. induction data as [|ke data IH]; intros m; [reflexivity|].
+  cbn [length repeat load_multi fold_left]. rewrite IH. reflexivity.
+Qed.
+
+Lemma G_load abs conc data a b t : G abs conc -> a <= t <= b -> G (aload a b data abs) (s_load conc data t).
+Proof.
+  intros HG Ht. rewrite <- load_multi_repeat. apply G_load_multi; auto.
+  - now rewrite repeat_length.
+  - apply Forall_forall. intros x Hx. apply repeat_spec in Hx. now subst.
 Qed.
 
 Lemma count_ok abs conc : G abs conc ->
@@ -329,7 +403,7 @@ Proof.
   intros (H1 & H2 & H3 & H4). apply andb_true_iff. split; apply Nat.leb_le.
   - unfold nsure. apply length_le_keys; [now apply SSorted_filter|].
     intros k ae Hin. apply filter_In in Hin as [Hin Hs]. simpl in Hs.
-    destruct (ap ae) eqn:Ep; [|discriminate].
+    destruct (ap ae) eqn:Ep; try discriminate.
     destruct (H4 k ae (In_m_get _ _ _ H1 Hin) Ep) as (e & He). exists e. now apply m_get_In.
   - apply length_le_keys; auto. intros k [v d] Hin.
     destruct (H3 k v d (In_m_get _ _ _ H2 Hin)) as (ae & Ha & _). exists ae. now apply m_get_In.
@@ -337,39 +411,40 @@ Qed.
 
 (* ---------- one step ---------- *)
 Lemma astep_complete abs conc s t :
-  G abs conc -> op_wf (t_op s) -> 0 < t_a s -> t_a s <= t <= t_b s ->
+  G abs conc -> 0 < t_a s -> t_a s <= t <= t_b s ->
   snd (sstep fl defttl conc t (t_op s)) = t_out s ->
   exists abs', astep g defttl abs s = Some abs' /\ G abs' (fst (sstep fl defttl conc t (t_op s))).
 Proof.
-  intros HG Hwf Ha Ht Hout. unfold astep. rewrite <- Hout. clear Hout.
-  destruct (t_op s) as [k v ttl|k v ttl|k v ttl|k|k| | | | |data]; simpl.
-  - eexists; split; [reflexivity|]. apply G_put; auto. now apply in_range_new.
+  intros HG Ha Ht Hout. unfold astep. rewrite <- Hout. clear Hout.
+  destruct (t_op s) as [k v ttl|k v ttl|k v ttl|k|k| | | | |data|data]; simpl.
+  - eexists; split; [reflexivity|]. apply G_put; auto. apply fits_intro; [reflexivity|now apply in_range_new].
   - destruct (m_get conc k) as [[v0 d0]|] eqn:Ec; simpl.
-    + pose proof HG as (_ & _ & H3 & _). destruct (H3 k v0 d0 Ec) as (ae & Hae & Hv & Hr). rewrite Hae.
+    + pose proof HG as (_ & _ & H3 & _). destruct (H3 k v0 d0 Ec) as (ae & Hae & Hf). rewrite Hae.
+      destruct (wild ae) eqn:Hw; [eexists; split; [reflexivity|exact HG]|].
       eexists; split; [reflexivity|]. eapply G_refine; eauto.
+      destruct (fits_nonwild ae v0 d0 Hw Hf) as [Hv Hr]. now apply fits_intro.
     + rewrite (absent_ok_absent abs conc k HG Ec). eexists; split; [reflexivity|].
-      apply G_put; auto. now apply in_range_new.
+      apply G_put; auto. apply fits_intro; [reflexivity|now apply in_range_new].
   - destruct (m_get conc k) as [[v0 d0]|] eqn:Ec; simpl.
     + destruct (expired t d0) eqn:Ex; simpl.
       * rewrite (miss_ok_expired abs conc k v0 d0 t (t_b s) HG Ec Ex (proj2 Ht)).
         eexists; split; [reflexivity|]. now apply G_del.
-      * pose proof HG as (_ & _ & H3 & _). destruct (H3 k v0 d0 Ec) as (ae & Hae & Hv & Hr). rewrite Hae.
-        rewrite (may_live_ok (ar ae) d0 t (t_a s) Hr Ex (proj1 Ht)).
-        eexists; split; [reflexivity|]. apply G_put; auto. now apply in_range_new.
+      * pose proof HG as (_ & _ & H3 & _). destruct (H3 k v0 d0 Ec) as (ae & Hae & Hf). rewrite Hae.
+        rewrite (wild_or_live ae v0 d0 t (t_a s) Hf Ex (proj1 Ht)).
+        eexists; split; [reflexivity|]. apply G_put; auto. apply fits_intro; [reflexivity|now apply in_range_new].
     + rewrite (miss_ok_absent abs conc k (t_b s) HG Ec). eexists; split; [reflexivity|].
-      pose proof HG as (_ & H2 & _). rewrite <- (m_del_absent k conc Ec). now apply G_del.
+      rewrite <- (m_del_absent k conc Ec). now apply G_del.
   - eexists; split; [reflexivity|]. now apply G_del.
   - destruct (m_get conc k) as [[v0 d0]|] eqn:Ec; simpl.
     + destruct (expired t d0) eqn:Ex; simpl.
       * rewrite (miss_ok_expired abs conc k v0 d0 t (t_b s) HG Ec Ex (proj2 Ht)).
         eexists; split; [reflexivity|]. now apply G_del.
-      * pose proof HG as (_ & _ & H3 & _). destruct (H3 k v0 d0 Ec) as (ae & Hae & Hv & Hr). rewrite Hae.
-        rewrite Hv, Z.eqb_refl, Hr. simpl.
+      * pose proof HG as (_ & _ & H3 & _). destruct (H3 k v0 d0 Ec) as (ae & Hae & Hf). rewrite Hae, Hf. simpl.
         assert (Hlive : ((d0 <=? 0) || (t_a s <=? d0))%bool = true).
         { unfold expired in Ex. apply orb_true_iff.
           apply andb_false_iff in Ex as [E|E]; apply Z.ltb_ge in E; [left|right]; apply Z.leb_le; lia. }
         rewrite Hlive. eexists; split; [reflexivity|].
-        eapply G_refine; eauto. simpl. apply in_range_exact.
+        eapply G_refine; eauto. apply fits_intro; [reflexivity|apply in_range_exact].
     + rewrite (miss_ok_absent abs conc k (t_b s) HG Ec). eexists; split; [reflexivity|].
       rewrite <- (m_del_absent k conc Ec). now apply G_del.
   - rewrite (count_ok abs conc HG). eexists; split; [reflexivity|exact HG].
@@ -377,33 +452,41 @@ Proof.
   - eexists; split; [reflexivity|]. now apply G_sweep.
   - rewrite (export_ok_complete abs conc HG). eexists; split; [reflexivity|].
     apply G_export. now destruct HG as (_ & H2 & _).
-  - eexists; split; [reflexivity|]. destruct Hwf as [Hnd _]. now apply G_restore.
+  - eexists; split; [reflexivity|]. apply G_load; [apply G_nil|exact Ht].
+  - eexists; split; [reflexivity|]. now apply G_load.
 Qed.
 
 Lemma adm_complete_gen tr : forall ts abs conc i,
-  G abs conc -> trace_wf tr -> within tr ts ->
+  G abs conc -> within tr ts ->
   snd (srun fl defttl conc (combine ts (map t_op tr))) = observed tr ->
   adm_first g defttl abs tr i = None.
 Proof.
-  induction tr as [|s tr IH]; intros ts abs conc i HG Hwf Hw Hout; simpl; auto.
-  inversion Hw as [|? t ? ts' Hs Hw']; subst. inversion Hwf as [|? ? Hwf1 Hwf2]; subst.
+  induction tr as [|s tr IH]; intros ts abs conc i HG Hw Hout; simpl; auto.
+  inversion Hw as [|? t ? ts' Hs Hw']; subst.
   simpl in Hout. destruct (sstep fl defttl conc t (t_op s)) as [conc' r] eqn:Est.
   destruct (srun fl defttl conc' (combine ts' (map t_op tr))) as [conc'' rs] eqn:Er.
   simpl in Hout. inversion Hout as [[Hr Hrs]].
   destruct Hs as [Ha Ht].
-  destruct (astep_complete abs conc s t HG Hwf1 Ha Ht) as (abs' & Hstep & HG').
+  destruct (astep_complete abs conc s t HG Ha Ht) as (abs' & Hstep & HG').
   { rewrite Est. exact Hr. }
   rewrite Hstep. rewrite Est in HG'. simpl in HG'.
-  apply (IH ts' abs' conc' (S i) HG' Hwf2 Hw'). rewrite Er. exact Hrs.
+  apply (IH ts' abs' conc' (S i) HG' Hw'). rewrite Er. exact Hrs.
 Qed.
 
-(* THE no-false-alarm theorem *)
+(* THE no-false-alarm theorem (no well-formedness premise is needed any more: the abstract Load handles
+   duplicate keys in the data as well) *)
 Theorem admissible_complete tr :
-  trace_wf tr ->
   (exists ts, within tr ts /\ spec_outputs fl defttl tr ts = observed tr) ->
   admissible_b g defttl tr = true.
 Proof.
-  intros Hwf (ts & Hw & Hout). unfold admissible_b.
-  rewrite (adm_complete_gen tr ts [] [] 0 G_nil Hwf Hw Hout). reflexivity.
+  intros (ts & Hw & Hout). unfold admissible_b.
+  rewrite (adm_complete_gen tr ts [] [] 0 G_nil Hw Hout). reflexivity.
 Qed.
+
+(* Load really reads the clock once per decoded entry. The abstract Load covers that too: whatever instants
+   in [a,b] the entries are judged at, the result is concretised by the abstract state. *)
+Theorem aload_covers_multi_instant a b data ts abs conc :
+  G abs conc -> length ts = length data -> Forall (fun t => a <= t <= b) ts ->
+  G (aload a b data abs) (load_multi ts conc data).
+Proof. intros. now apply G_load_multi. Qed.
 End Complete.
